@@ -1,5 +1,5 @@
 """C14 - collider life cycle (explorer specs/c14/ColliderLife.tla, trace spec ColliderLifeTrace.tla)."""
-import json, os, random, re
+import json, math, os, random, re
 import numpy as np
 from .. import env, tlc, shapes as S
 from ..ratio import ticks
@@ -335,22 +335,37 @@ def run(tier, seed):
     for cls0 in sorted(STORAGE):
         for mg in (False, True):
             for h in memo:
-                forced.append((h, cls0, mg))
-    hists = [(h, None, None) for h in hists] + forced
+                forced.append((h, cls0, mg, None))
+        # the same pattern with pose values that differ by a rotation of about 1e-6 rad (seeds C03-8, C14-9: cached axes /
+        # vertices that are refreshed only when the new pose is not "close" to the old one)
+        forced.append((memo[1], cls0, False, "rot"))
+    hists = [(h, None, None, None) for h in hists] + forced
     events, meta = [], {}
-    for i, (h, cls0, mg0) in enumerate(hists):
+    for i, (h, cls0, mg0, drift0) in enumerate(hists):
         cls = cls0 or rng.choice(sorted(STORAGE))
         s = rng.choice(cat[cls])
         unit = rng.choice((1.0, 0.3, 2.0))
         margin = unit * 0.5 if (rng.random() < 0.25 if mg0 is None else mg0) else 0.0
         kind = "lattice" if rng.random() < 0.5 else "float"
         posevals = {p: rand_pose(rng, kind) for p in ("P1", "P2", "P3", "P4")}
-        if rng.random() < 0.3:
-            # a long drift by small steps: consecutive pose values that differ only slightly
+        if drift0 is not None or rng.random() < 0.3:
+            # a long drift by small steps: consecutive pose values that differ only slightly - by a translation, by a rotation
+            # of about 1e-6 rad about a generic axis, or both
             base = posevals["P1"]
+            if drift0 == "rot" and kind == "lattice":
+                base = rand_pose(rng, "float"); posevals["P1"] = base      # a generic orientation: no component of an axis near 0
+            mode = drift0 or rng.choice(("trans", "rot", "both"))
+            ax = np.array([rng.gauss(0, 1) for _ in range(3)]); ax /= np.linalg.norm(ax)
+            K = np.array([[0, -ax[2], ax[1]], [ax[2], 0, -ax[0]], [-ax[1], ax[0], 0]])
+            step = 10 ** rng.uniform(-6.5, -5.5)
             for j, p in enumerate(("P2", "P3", "P4"), 1):
-                Tn = base.copy(); Tn[:3, 3] += j * 1e-6 * np.array([1.0, -2.0, 0.5]) * rng.choice((1.0, 100.0))
-                posevals[p] = Tn
+                Tn = base.copy()
+                if mode in ("trans", "both"):
+                    Tn[:3, 3] += j * 1e-6 * np.array([1.0, -2.0, 0.5]) * rng.choice((1.0, 100.0))
+                if mode in ("rot", "both"):
+                    ang = j * step
+                    Tn[:3, :3] = (np.eye(3) + math.sin(ang) * K + (1 - math.cos(ang)) * (K @ K)) @ base[:3, :3]
+                posevals[p] = np.ascontiguousarray(Tn)
         hid = f"h{i}"
         events.append(replay_history(hid, h, cls, s, unit, posevals, rng, margin))
         meta[hid] = {"cls": cls + ("+Margin" if margin else ""), "shape": {k: v for k, v in s.items() if k != "name"}, "history": h}
